@@ -26,6 +26,12 @@ def main(tier, seed, replay):
     cases = envcheck.run_harness(ck, "kms", runs)
     if cases is None:
         return ck.finish()
+    for c in cases:
+        att, ent = c.get("attempts") or [], c.get("entries") or []
+        if c["wrapok"] and att and c["pref"] in ent and att[0] != c["pref"]:
+            c["viol"] = (c.get("viol") or []) + ["unwrap: the preferred region %d has an entry in the envelope but region %d was attempted first (attempts %s)" % (c["pref"], att[0], att)]
+        if c["wrapok"] and len(set(att)) != len(att):
+            c["viol"] = (c.get("viol") or []) + ["unwrap: a region was attempted twice (%s)" % att]
     viol = [c for c in cases if c.get("viol")]
     bad, errs, dt = vlib.coq_mismatches("c17", "From Coq Require Import List.\nImport ListNotations.\nFrom Asherah Require Import Kms.AwsKms Cases.C17Run.",
                                         "kcase", [term(c) for c in cases], "mismatches_from", shard=600)
